@@ -97,6 +97,7 @@ type Interp struct {
 	curInstr  ssa.Instruction
 	regions   map[*ssa.If]*regionInfo
 	skipModel string
+	forkSites map[string]int
 	notes     map[string]Value
 	pcs       []pcEntry
 	pcByVar   map[int32][]int
